@@ -56,7 +56,8 @@ C17_LEMMAS = ['lemma_ord_reduce', 'lemma_fd7shift', 'lemma_wd_period', 'lemma_wd
 def civil_c17_goals():
     return [plain('civil', 'pl_' + l, timeout=300) for l in C17_LEMMAS] + \
            [enforce('civil', 'get_weekday', timeout=400), enforce('civil', 'get_yearday'),
-            enforce('civil', 'next_weekday', timeout=300), enforce('civil', 'prev_weekday', timeout=300, no_replace=('ct_day_minus',)),
+            enforce('civil', 'next_weekday', timeout=300, unwind=9, unwind_only=('next_weekday#2',)),
+            enforce('civil', 'prev_weekday', timeout=300, unwind=9, unwind_only=('prev_weekday#2',), no_replace=('ct_day_minus',)),
             enforce('civil', 'step_day', timeout=300), enforce('civil', 'ct_day_plus', timeout=300)]
 
 
@@ -136,10 +137,100 @@ PROPERTIES['C15'] = dict(
 )
 
 
+PROPERTIES['C17'] = dict(
+    goals=lambda: civil_spec_lemmas() + civil_leaves() + civil_nday() + civil_carry_chain() + civil_c17_goals(),
+    trusted_base=['/verif/stubs/prelude.h', '/verif/spec/gregorian.h (ORD, WD: weekday of a day ordinal, 1970-01-01 = Thursday)',
+                  'opaque specification symbols (DAYORD, VALIDD, WDAY, ...) with definitions assumed at instantiated tuples (REVEAL_* macros)'],
+    level_text='Unbounded proof for all valid civil days with int64 years: get_weekday returns the weekday of the date\'s day ordinal (reduction to the 400-year cycle by '
+               'code-free lemmas, then a finite 32-bit table check), get_yearday is the ordinal distance from January 1 of the same year plus one and lies in 1..365/366, '
+               'next_weekday / prev_weekday return the day 1..7 days after / before the argument whose weekday is the requested one (hence the nearest such day strictly '
+               'after / before).  The day arithmetic they use (operator+/- on civil_day) is the C05 contract, re-discharged in the same run.',
+    level_note='The outer loop of next/prev_weekday carries a loop contract (invariant + decreases); the inner loop (at most 7 iterations over a 14-entry table) is unwound 9 '
+               'times with an unwinding assertion - complete, not a bounded stand-in - because goto-instrument --dfcc rejects loop contracts on this loop nest.',
+    not_decided='',
+    assumptions=['dfcc havocs function-local static tables at a loop contract: the (const) table contents are restated as a loop invariant'],
+)
+
+
 # ------------------------------------------------------------------ unit zone
-ZONE_LEMMAS = ['lemma_epoch', 'lemma_secrepr', 'lemma_osec_lex']
+ZONE_LEMMAS = ['lemma_epoch', 'lemma_secrepr', 'lemma_osec_lex', 'lemma_prepost']
+ZD = dict(defines=['OSEC_OPAQUE'])     # the kernel sees the second ordinal of a civil second as an opaque symbol (contracts/civil.h)
+
+
+def zone_lemmas():
+    return [plain('zone', 'pl_' + l, timeout=300) for l in ZONE_LEMMAS]
 
 
 def zone_c01_goals():
-    return [plain('zone', 'pl_' + l, timeout=300) for l in ZONE_LEMMAS] + \
-           [enforce('zone', f, timeout=300) for f in ('LocalTime_TransitionType', 'LocalTime_Transition', 'BreakTime')]
+    return zone_lemmas() + [enforce('zone', f, timeout=400, **ZD) for f in ('LocalTime_TransitionType', 'LocalTime_Transition', 'BreakTime')]
+
+
+MT_INLINE = ('ct_lt', 'ct_le', 'ct_gt', 'ct_ge', 'MakeUnique_tp', 'MakeUnique_unix')   # tiny bodies: verified inline rather than through their contracts
+
+
+def maketime_goals():
+    """MakeTime is proved by an exhaustive three-way case split on where cs lies (before the first row / at or after the last / between):
+    one goal per case, each with the case as an extra precondition (contracts/zone.h, MT_CASE)"""
+    return [G('MakeTime_case%d' % c, 'zone', enforce='MakeTime', timeout=900, backends=('cvc5bv',),
+              defines=['OSEC_OPAQUE', 'MT_CASE=%d' % c], no_replace=MT_INLINE) for c in (1, 2, 3)]
+
+
+def zone_c02_goals():
+    return zone_lemmas() + [enforce('zone', f, timeout=400, **ZD) for f in ('MakeUnique_tp', 'MakeUnique_unix', 'MakeSkipped', 'MakeRepeated')] + maketime_goals()
+
+
+def civil_second_support(tier_only='thorough'):
+    """the civil-time contracts the zone kernel calls (second alignment) - discharged by the C04/C05 checks; re-discharged here in the thorough tier"""
+    gs = civil_spec_lemmas() + civil_leaves() + civil_nday() + civil_carry_chain() + civil_c05_goals()
+    for g in gs:
+        g.tier = tier_only
+    return gs
+
+
+ZONE_TRUSTED = [
+    '/verif/stubs/prelude.h', '/verif/stubs/vstr.h (std::string model)', '/verif/spec/gregorian.h',
+    'std::upper_bound / std::lower_bound: trusted model (contracts/zone.h) - returns the end of the bracket containing the key, which is unique in a sorted table',
+    'std::atomic<size_t> hints: load returns an ARBITRARY value (ghost gz_hint), store has no visible effect',
+    'std::vector<Transition>/<TransitionType>: {data, size} pairs with in-bounds operator[] (bounds are proof obligations)',
+    'contracts of civil_second +, -, comparison (ct_second_plus, ct_second_diff, ct_lt..ct_ge): discharged by the C04/C05 checks (same tree, same run directory in the thorough tier)',
+]
+ZONE_ASSUME = [
+    'ASSUMED table well-formedness (what TimeZoneInfo::Load is meant to establish; Load itself is NOT under contract): at every index the kernel touches, '
+    'type indices in range, |utc_offset| < 86400, abbr_index inside the abbreviation string, civil_sec / prev_civil_sec are the local readings of unix_time and '
+    'unix_time - 1, civil_max / civil_min the readings of INT64_MAX / INT64_MIN; first transition < 0 <= last transition; the table is sorted by unix_time and by '
+    'civil_sec (used as: the bracket containing a key is unique)',
+    'ASSUMED margin: table times within [-2^62, 2^62] (finding D6: Load does not establish this for crafted files; real zic output is within [-2^59, 2^37])',
+    'universal statements over the table are proved for ARBITRARY ghost indices gz_i / gz_j / gz_hint (nondeterministic in every harness)',
+    'not extended_: the 400-year shift (BreakTime recursion, TimeLocal) and the footer-generated rows are not covered by these goals',
+    'table length bounded by ZMAXTR = 2000 rows and 256 types only to size the symbolic allocation (no loop or unwinding depends on it)',
+    'R18/R19: iterator pointers are dereferenced relative to the begin pointer; table element structs padded to 64 bytes (layout only)',
+]
+
+PROPERTIES['C01'] = dict(
+    goals=lambda: zone_c01_goals() + civil_second_support(),
+    level_text='Proof, for every table satisfying the stated well-formedness at the touched rows, every int64 instant and every hint value, that BreakTime returns the '
+               'offset, DST flag and abbreviation of the default type before the first row, of the last row\'s type at or after it, and otherwise of the row gz_i with '
+               'unix_time[gz_i] <= t < unix_time[gz_i+1], and that the civil second returned has second ordinal t + offset + epoch (LocalTime: two-step addition without overflow).',
+    level_note='Kernel only. NOT decided: TimeZoneInfo::Load (TZif decoding, validation, default-type choice), ExtendTransitions / the POSIX footer, and the 400-year shift for '
+               'instants beyond the last row (precondition !extended_). The table invariants are assumed, not proved to be established by Load.',
+    trusted_base=ZONE_TRUSTED, not_decided='Load, ExtendTransitions/footer rules, 400-year shift (extended_) - assumed or excluded', assumptions=ZONE_ASSUME,
+)
+PROPERTIES['C02'] = dict(
+    goals=lambda: zone_c02_goals() + civil_second_support(),
+    level_text='Proof, for every well-formed table (rows touched), every valid civil second and every hint value, of MakeTime\'s case analysis: before the first row / after '
+               'the last row / inside the civil bracket ending at row gz_j it returns SKIPPED at the row whose gap contains cs, REPEATED at the row whose overlap contains cs, '
+               'else UNIQUE with the instant cs - offset - epoch (clamped to int64 through civil_min/civil_max at the ends); MakeSkipped/MakeRepeated compute pre/trans/post '
+               'exactly (no overflow given the margin), and lemma_prepost shows pre/post are cs read with the offset before/after the change with pre >= trans > post (skipped) '
+               'and pre < trans <= post (repeated).',
+    level_note='Kernel only (see C01). "exactly one / no / two instants display cs" is established relative to the table rows named by the ghost indices; the global counting '
+               'argument over all rows (sortedness + spacing) is not mechanised.',
+    trusted_base=ZONE_TRUSTED, not_decided='Load; TimeLocal / extended_ years; global counting argument', assumptions=ZONE_ASSUME,
+)
+PROPERTIES['C14'] = dict(
+    goals=lambda: zone_lemmas() + [enforce('zone', 'BreakTime', timeout=400, **ZD)] + maketime_goals() + civil_second_support(),
+    level_text='Proof that the results of BreakTime and MakeTime do not depend on the remembered hints: the relaxed load of local_time_hint_ / time_local_hint_ is modelled as '
+               'returning an arbitrary value (ghost gz_hint, unconstrained), the store as invisible, and the postconditions - which do not mention the hint - are proved for every '
+               'such value; the functions are const and have an empty assigns clause (frame condition checked by CBMC\'s contract instrumentation).',
+    level_note='Covers the per-direction hint state only. NOT decided: the name cache in time_zone_impl.cc (std::map + mutex) and format/parse.',
+    trusted_base=ZONE_TRUSTED, not_decided='time_zone_map cache (load_time_zone), format/parse history independence', assumptions=ZONE_ASSUME,
+)
